@@ -3,19 +3,20 @@
 # confirms the seeded change (suite passes, demo fails with / passes without) and runs the property's check on it
 export GOFLAGS=-mod=mod GOPROXY=off GOSUMDB=off GOTOOLCHAIN=local
 id=$1; prop=$2; tier=${3:-quick}; d=/verif/seeded/$id
-cd /repo || exit 2
+REPO=${REPO:-/repo}
+cd $REPO || exit 2
 git diff --quiet || { echo "/repo not clean"; exit 2; }
 # demo passes without the change
-cp $d/demo_test.go /repo/zz_seed_demo_test.go
+cp $d/demo_test.go $REPO/zz_seed_demo_test.go
 go test -vet=off -count=1 -run 'TestSeedDemo$' . >/tmp/seed_base.log 2>&1; base=$?
-git apply $d/patch.diff || { rm -f /repo/zz_seed_demo_test.go; echo "patch does not apply"; exit 2; }
-go build ./... || { git checkout -- .; rm -f /repo/zz_seed_demo_test.go; echo "BUILD FAIL"; exit 2; }
+git apply $d/patch.diff || { rm -f $REPO/zz_seed_demo_test.go; echo "patch does not apply"; exit 2; }
+go build ./... || { git checkout -- .; rm -f $REPO/zz_seed_demo_test.go; echo "BUILD FAIL"; exit 2; }
 go test -vet=off -count=1 -run 'TestSeedDemo$' . >/tmp/seed_mut.log 2>&1; mut=$?
-rm -f /repo/zz_seed_demo_test.go
+rm -f $REPO/zz_seed_demo_test.go
 go test -vet=off -count=1 ./... >/tmp/seed_suite.log 2>&1; suite=$?
 echo "seed $id: demo-without-change exit=$base demo-with-change exit=$mut suite-with-change exit=$suite"
-cd /verif && ./bin/vcheck -p $prop -tier $tier > /tmp/seed_check_$id.log 2>&1; chk=$?
-git -C /repo checkout -- .
+cd /verif && ./bin/vcheck -repo $REPO -p $prop -tier $tier > /tmp/seed_check_$id.log 2>&1; chk=$?
+git -C $REPO checkout -- .
 echo "seed $id: check $prop/$tier exit=$chk"
 grep -c "^VIOLATION" /tmp/seed_check_$id.log
 grep "counterexample" /tmp/seed_check_$id.log | head -3 | cut -c1-220
